@@ -3,7 +3,7 @@
    datum, then on the type. *)
 From Coq Require Import List String ZArith Bool Arith Lia.
 From AV Require Import Core.Json Core.Errors Core.Text Core.TextProofs Core.Util Small.Ordering Deser.Model Deser.Spec Deser.Unfold Deser.Loops
-  Schema.Json Schema.Unfold Schema.Build Schema.Proofs Schema.ConProofs Schema.ShapeProofs Schema.AgreeProofs Schema.ObjAgree.
+  Schema.Json Schema.Unfold Schema.Build Schema.Proofs Schema.ConProofs Schema.ShapeProofs Schema.AgreeProofs Schema.DepReqAgree Schema.ObjAgree.
 Import ListNotations.
 Open Scope string_scope.
 
@@ -39,7 +39,7 @@ Section Ref.
   Notation B := (build u o refs).
 
   Definition cls_conds (okf : ty -> bool) (m : nat) (cd : cdef) : bool :=
-    sorted_kept cd && match cd_depreq cd with [] => true | _ => false end
+    sorted_kept cd && wf_depreq cd
     && forallb (fun fd => no_fb fd && okf (field_ty fd) && wf_con (field_ty fd)
                           && con_mergeable u o refs m false (field_ty fd) && keys_ok u (field_ty fd)) (cd_fields cd).
 
@@ -83,12 +83,12 @@ Section Ref.
   Qed.
 
   Lemma cls_conds_fields okf m cd : cls_conds okf m cd = true ->
-    elems_sorted cd = cd_fields cd /\ cd_depreq cd = [] /\ forallb no_fb (cd_fields cd) = true
+    elems_sorted cd = cd_fields cd /\ wf_depreq cd = true /\ forallb no_fb (cd_fields cd) = true
     /\ forall fd, In fd (cd_fields cd) -> okf (field_ty fd) = true /\ wf_con (field_ty fd) = true
                   /\ con_mergeable u o refs m false (field_ty fd) = true /\ keys_ok u (field_ty fd) = true.
   Proof.
     unfold cls_conds. intros H. apply andb_true_iff in H. destruct H as [H Hf]. apply andb_true_iff in H. destruct H as [Hs Hd].
-    split; [apply sorted_kept_ok; exact Hs|]. split; [destruct (cd_depreq cd); [reflexivity|discriminate]|].
+    split; [apply sorted_kept_ok; exact Hs|]. split; [assumption|].
     split.
     - apply forallb_forall. intros fd Hin. rewrite forallb_forall in Hf. specialize (Hf fd Hin).
       repeat (apply andb_true_iff in Hf; destruct Hf as [Hf ?]). assumption.
@@ -144,7 +144,7 @@ Section Ref.
       { intros fd Hin x Hg. pose proof (dd_dict l x) as Hlt.
         assert (Hx : In x (map snd l)) by (apply in_map_iff; exists (o_aliaser o (fd_alias fd), x); split; [reflexivity|apply dict_get_in; exact Hg]).
         specialize (Hlt Hx). apply (IHk (dd x)) with (n := m); try lia. apply (Hall fd Hin). }
-      destruct (spec_fields_gen u o sf' (get_cls u c) l (cd_fields (get_cls u c)) Hdep Hfb Hnb Hnf) as [Hnone _].
+      destruct (spec_fields_gen u o sf' (get_cls u c) l (cd_fields (get_cls u c)) Hfb Hnb Hnf) as [Hnone _].
       rewrite Hnone. repeat match goal with |- context [if ?c then _ else _] => destruct c end; discriminate.
   Qed.
 
